@@ -108,7 +108,33 @@ TwoConsumers == {
   P("twocons", <<SIn("a", "signal-A", 5), SIn("b", "signal-A", -3), SLet("Signal", "p", Proj(Bin("*", A, B), TName("signal-P"))), SLet("Signal", "q", Proj(Bin("-", A, B), TName("signal-Q")))>>),
   P("twocons", <<SIn("a", "signal-A", 5), SIn("b", "signal-A", -3), SLet("Signal", "p", Bin("*", A, B)), SLet("Signal", "q", Bin("-", A, B)), SLet("Signal", "w", Bin("/", A, B))>>)
  }
-All == Pairs \cup Decl \cup Kinds1 \cup SameRef \cup FormsP \cup Share \cup LogicP \cup NamesP \cup TwoConsumers
+\* operand SHAPES of the logical operators (the compiler recognises "already 0/1" operands and skips the != 0 normalisation):
+\* every arithmetic operator with a small constant on either side, negations, products of comparisons, under && and || with a
+\* comparison / a plain signal / a negation as the other operand, on both sides, and under !
+SmallK == {0, 1, 2, -1}
+BShapes == {Bin(op, A, Num(k)) : op \in ArithOps, k \in SmallK} \cup {Bin(op, Num(k), A) : op \in {"-", "/", "%", "<<", ">>", "**", "AND"}, k \in {1, 2}}
+           \cup {Un("!", A), Un("-", A), Bin("*", Bin(">", A, Num(0)), Bin("<", C, Num(9))), Bin("+", Bin(">", A, Num(0)), Num(0)), Bin("+", Bin(">", A, Num(0)), Bin("<", C, Num(9))),
+                 Bin("-", Num(1), Bin(">", A, Num(0))), CondE(Bin(">", A, Num(0)), Num(1)), CondE(Bin(">", A, Num(0)), Num(2)), Bin("==", Bin("%", A, Num(2)), Num(1))}
+BOthers == {Bin(">", B, Num(0)), B, Un("!", B)}
+BoolShapeP == {P("bshape", In3(5, -3, 7) \o <<R(Bin(lo, s, t))>>) : lo \in LogOps, s \in BShapes, t \in BOthers}
+         \cup {P("bshape", In3(5, -3, 7) \o <<R(Bin(lo, Bin(">", B, Num(0)), s))>>) : lo \in LogOps, s \in BShapes}
+         \cup {P("bshape", In3(5, -3, 7) \o <<R(Un("!", s))>>) : s \in BShapes}
+         \cup {P("bshape", In3(5, -3, 7) \o <<R(CondE(s, B))>>) : s \in BShapes}
+\* NEAR-DUPLICATES: two statements that differ in exactly one attribute (operator, one operand, operand order, output type,
+\* output value, copy-vs-constant output) - in both orders, observed directly and through a consumer. Anything that identifies
+\* operations by a key (CSE, caches, de-duplication) must keep them apart.
+NearD == <<Bin(">", A, Num(2)), Bin(">=", A, Num(2)), Bin(">", A, Num(3)), Bin(">", B, Num(2)), CondE(Bin(">", A, Num(2)), B), CondE(Bin(">", A, Num(2)), Num(1)),
+           CondE(Bin(">", A, Num(2)), Num(7)), CondE(Bin(">", A, Num(2)), A), CondE(Bin(">", A, Num(2)), Proj(B, TX)), Bin(">", Num(2), A)>>
+NearA == <<Bin("+", A, B), Bin("-", A, B), Bin("-", B, A), Bin("+", A, C), Bin("*", A, B), Proj(Bin("+", A, B), TX), Bin("+", A, Num(2)), Bin("+", A, Num(3)),
+           Bin("-", Num(2), A), Bin("-", A, Num(2)), Bin("%", A, Num(2)), Bin("AND", A, Num(1)), Bin("+", B, A)>>
+NearPairs(fs) == {<<fs[i], fs[j]>> : i \in DOMAIN fs, j \in DOMAIN fs} \ {<<fs[i], fs[i]>> : i \in DOMAIN fs}
+NearP == {P("near", In3(5, -3, 7) \o <<SLet("Signal", "x", pr[1]), SLet("Signal", "y", pr[2])>>) : pr \in NearPairs(NearD) \cup NearPairs(NearA)}
+    \cup {P("near", In3(5, -3, 7) \o <<SLet("Signal", "x", pr[1]), SLet("Signal", "y", pr[2]), SLet("Signal", "z", Bin("+", Bin("*", Ref("x"), Num(100)), Ref("y")))>>) : pr \in NearPairs(NearD)}
+\* both operand ORDERS of every binary operator in one program, on one output type (commutative or not is the language's business)
+SwapP == {P("swap", In3(5, -3, 7) \o <<SLet("Signal", "x", Proj(Bin(op, A, B), TX)), SLet("Signal", "y", Proj(Bin(op, B, A), TX))>>) : op \in BinOps}
+    \cup {P("swap", <<SIn("a", "signal-A", 5), SIn("b", "signal-A", -3)>> \o <<SLet("Signal", "x", Bin(op, A, B)), SLet("Signal", "y", Bin(op, B, A))>>) : op \in BinOps}
+    \cup {P("swap", In3(5, -3, 7) \o <<SLet("Signal", "x", Proj(Bin(op, A, Num(2)), TX)), SLet("Signal", "y", Proj(Bin(op, Num(2), A), TX))>>) : op \in BinOps}
+All == SwapP \cup Pairs \cup Decl \cup Kinds1 \cup SameRef \cup FormsP \cup Share \cup LogicP \cup NamesP \cup TwoConsumers \cup BoolShapeP \cup NearP
 Out == SetToSeq(All)
 ASSUME PrintT(<<"NPROGS", Cardinality(All)>>)
 ASSUME JsonSerialize(IOEnv.GEN_OUT, Out)
